@@ -29,6 +29,15 @@ func randSchemaText(seed int64, k int) string {
 	return g.Example(int(seed*1000003 + int64(k)*7919 + 17))
 }
 
+// randSetArgs: sets with an odd index are generated with --split-internal (one Go package per namespace), the
+// layout large users of the generator build with.
+func randSetArgs(name string) []string {
+	if i := strings.LastIndexByte(name, '_'); i >= 0 && len(name) > i+1 && (name[len(name)-1]-'0')%2 == 1 {
+		return append(append([]string{}, randArgs...), "--split-internal")
+	}
+	return randArgs
+}
+
 func writeRandSet(name, text string) (genSet, error) {
 	dir := filepath.Join(workDir, "randsets", name)
 	if err := os.MkdirAll(dir, 0o755); err != nil {
@@ -38,7 +47,7 @@ func writeRandSet(name, text string) (genSet, error) {
 	if err := os.WriteFile(file, []byte(text), 0o644); err != nil {
 		return genSet{}, err
 	}
-	return genSet{Name: name, Files: []string{file}, Args: randArgs, Ephemeral: true}, nil
+	return genSet{Name: name, Files: []string{file}, Args: randSetArgs(name), Ephemeral: true}, nil
 }
 
 func randSet(seed int64, k int) (genSet, error) {
